@@ -237,4 +237,95 @@ THEOREM BoundedReturnHolds == TimeInv => BoundedReturnAll
 
 THEOREM NoEarlyGiveUpHolds == TimeInv => NoEarlyGiveUpAll
   BY DEF TimeInv, NoEarlyGiveUpAll
+
+(* ---- C01 / C06, unbounded: a call puts at most ONE request on the wire --------------------------------- *)
+(*   SendsInv            inductive: nothing has left before Send / Connect; never more than one request     *)
+(*   (no assumption about the design switches: this holds for every variant of the model)                   *)
+NotYet == {"idle", "entered", "locked", "dialing"}
+
+SendsInv ==
+  /\ DOMAIN pc = Calls
+  /\ sends \in [Calls -> Nat]
+  /\ \A c \in Calls : pc[c] \in NotYet => sends[c] = 0
+  /\ \A c \in Calls : sends[c] <= 1
+
+AtMostOneRequestAll == \A c \in Calls : sends[c] <= 1
+
+LEMMA SInitOK == Init => SendsInv
+  BY DEF Init, SendsInv, NotYet
+
+LEMMA SEnterOK == ASSUME SendsInv, NEW c \in Calls, Enter(c) PROVE SendsInv'
+  BY DEF SendsInv, Enter, NotYet
+
+LEMMA SLockOK == ASSUME SendsInv, NEW c \in Calls, Lock(c) PROVE SendsInv'
+  BY DEF SendsInv, Lock, NotYet
+
+LEMMA SSendOK == ASSUME SendsInv, NEW c \in Calls, Send(c) PROVE SendsInv'
+  <1>1. pc[c] = "locked"
+    BY DEF Send
+  <1>2. \/ pc' = [pc EXCEPT ![c] = "closing"] /\ sends' = sends
+        \/ pc' = [pc EXCEPT ![c] = "dialing"] /\ sends' = sends
+        \/ pc' = [pc EXCEPT ![c] = "sent"] /\ sends' = sends
+        \/ pc' = [pc EXCEPT ![c] = "sent"] /\ sends' = [sends EXCEPT ![c] = @ + 1]
+        \/ pc' = [pc EXCEPT ![c] = "closing"] /\ sends' = [sends EXCEPT ![c] = @ + 1]
+    BY DEF Send
+  <1> QED
+    BY <1>1, <1>2 DEF SendsInv, NotYet
+
+LEMMA SConnectOK == ASSUME SendsInv, NEW c \in Calls, Connect(c) PROVE SendsInv'
+  <1>1. pc[c] = "dialing" /\ sends' = [sends EXCEPT ![c] = @ + 1]
+    BY DEF Connect
+  <1>2. pc' = [pc EXCEPT ![c] = "closing"] \/ pc' = [pc EXCEPT ![c] = "sent"]
+    BY DEF Connect
+  <1> QED
+    BY <1>1, <1>2 DEF SendsInv, NotYet
+
+LEMMA SRecvOK == ASSUME SendsInv, NEW c \in Calls, Recv(c) PROVE SendsInv'
+  <1>1. pc[c] = "sent" /\ sends' = sends
+    BY DEF Recv
+  <1>2. pc' = pc \/ pc' = [pc EXCEPT ![c] = "closing"]
+    BY DEF Recv
+  <1> QED
+    BY <1>1, <1>2 DEF SendsInv, NotYet
+
+LEMMA STimeoutOK == ASSUME SendsInv, NEW c \in Calls, Timeout(c) PROVE SendsInv'
+  BY DEF SendsInv, Timeout, NotYet
+
+LEMMA SPeerErrOK == ASSUME SendsInv, NEW c \in Calls, PeerErr(c) PROVE SendsInv'
+  BY DEF SendsInv, PeerErr, NotYet
+
+LEMMA SFinishOK == ASSUME SendsInv, NEW c \in Calls, Finish(c) PROVE SendsInv'
+  <1>1. pc[c] = "closing" /\ pc' = [pc EXCEPT ![c] = "returning"] /\ sends' = sends
+    BY DEF Finish
+  <1> QED
+    BY <1>1 DEF SendsInv, NotYet
+
+LEMMA SReturnOK == ASSUME SendsInv, NEW c \in Calls, Return(c) PROVE SendsInv'
+  BY DEF SendsInv, Return, NotYet
+
+LEMMA SStrayOK == ASSUME SendsInv, NEW c \in Calls, NEW cls \in StrayClasses, Stray(c, cls) PROVE SendsInv'
+  BY DEF SendsInv, Stray
+
+LEMMA SDeliverOK == ASSUME SendsInv, NEW p \in pend, Deliver(p) PROVE SendsInv'
+  BY DEF SendsInv, Deliver
+
+LEMMA STickOK == ASSUME SendsInv, Tick PROVE SendsInv'
+  BY DEF SendsInv, Tick
+
+LEMMA SStutterOK == ASSUME SendsInv, UNCHANGED vars PROVE SendsInv'
+  BY DEF SendsInv, vars
+
+THEOREM SInductive == ASSUME SendsInv, [Next]_vars PROVE SendsInv'
+  BY SEnterOK, SLockOK, SSendOK, SConnectOK, SRecvOK, STimeoutOK, SPeerErrOK, SFinishOK, SReturnOK, SStrayOK, SDeliverOK, STickOK, SStutterOK DEF Next
+
+THEOREM SendsAlways == Spec => []SendsInv
+  <1>1. Init => SendsInv
+    BY SInitOK
+  <1>2. SendsInv /\ [Next]_vars => SendsInv'
+    BY SInductive
+  <1> QED
+    BY <1>1, <1>2, PTL DEF Spec
+
+THEOREM AtMostOneRequestHolds == SendsInv => AtMostOneRequestAll
+  BY DEF SendsInv, AtMostOneRequestAll
 =============================================================================
